@@ -11,6 +11,7 @@ import (
 	"compress/flate"
 	"errors"
 	"io"
+	"sync"
 )
 
 type vfFlateW struct {
@@ -21,6 +22,7 @@ type vfFlateW struct {
 }
 
 var vfFW map[*flate.Writer]*vfFlateW
+var vfFWMu sync.Mutex
 
 // vfFlateEmit selects how the model hands its output to the destination
 // writer: 0 = one Write, k>0 = first k bytes then the rest (exercises the
@@ -35,21 +37,29 @@ func vfFlateNewWriter(w io.Writer, level int) (*flate.Writer, error) {
 		return nil, vfErrFlateLevel
 	}
 	fw := new(flate.Writer)
+	vfFWMu.Lock()
 	if vfFW == nil {
 		vfFW = make(map[*flate.Writer]*vfFlateW)
 	}
 	vfFW[fw] = &vfFlateW{dst: w, level: level}
+	vfFWMu.Unlock()
 	return fw, nil
 }
 
+func vfFlateState(fw *flate.Writer) *vfFlateW {
+	vfFWMu.Lock()
+	defer vfFWMu.Unlock()
+	return vfFW[fw]
+}
+
 func vfFlateWrite(fw *flate.Writer, p []byte) (int, error) {
-	st := vfFW[fw]
+	st := vfFlateState(fw)
 	st.pending = append(st.pending, p...)
 	return len(p), nil
 }
 
 func vfFlateFlush(fw *flate.Writer) error {
-	st := vfFW[fw]
+	st := vfFlateState(fw)
 	var out []byte
 	data := st.pending
 	st.pending = nil
@@ -78,7 +88,7 @@ func vfFlateFlush(fw *flate.Writer) error {
 }
 
 func vfFlateWReset(fw *flate.Writer, dst io.Writer) {
-	st := vfFW[fw]
+	st := vfFlateState(fw)
 	st.dst = dst
 	st.pending = nil
 }
